@@ -65,7 +65,7 @@ def check_dispatch(ctx, R):
                     n += 1
                     flagged = given is not None and isinstance(given, ast.Constant) and given.value is True
                     conj = []
-                    for t_, p_ in lib.guard_tests(c, fn):
+                    for t_, p_ in lib.path_conditions(c, fn):
                         parts = t_.values if isinstance(t_, ast.BoolOp) and isinstance(t_.op, ast.And) and p_ else [t_]
                         conj.extend((unparse(x), p_) for x in parts)
                     retries.append((ci, m, c, flagged, conj))
